@@ -115,6 +115,9 @@ def falsify_typed(unit: str, prop: Optional[str], tries: int = 400) -> Dict[str,
     local = unit.split(":")[1]
     if "." in local:
         raise CannotReplay("typed falsifier handles module level functions only")
+    if not (fc.modifies == [] and fc.effect == "atomic"):
+        # only functions declared pure (no frame, no suspension) are safe and meaningful to run natively
+        raise CannotReplay("typed falsifier handles functions declared pure (modifies=[], effect='atomic') only")
     names = [p.arg for p in node.args.posonlyargs + node.args.args + node.args.kwonlyargs]
     for p in names:
         if p not in fc.params:
@@ -125,7 +128,9 @@ def falsify_typed(unit: str, prop: Optional[str], tries: int = 400) -> Dict[str,
     if asyncio.iscoroutinefunction(fn):
         raise CannotReplay("typed falsifier handles synchronous functions only")
     rng = random.Random(int(os.environ.get("VERIF_SEED", "0") or 0) * 7919 + 17)
-    clauses = [cl for cl in fc.ensures if not prop or not cl.props or prop in cl.props]
+    from .rules import clause_mentions_traces
+
+    clauses = [cl for cl in fc.ensures if (not prop or not cl.props or prop in cl.props) and not clause_mentions_traces(cl) and "local(" not in cl.text]
     if not clauses:
         raise CannotReplay("no postcondition to use as oracle")
     B = Builder({})
